@@ -67,6 +67,17 @@ def string_format_table(rs: Function) -> List[Tuple[str, str, ast.AST]]:
                     out.append((const_str(k) or "", const_str(v) or "", v))
     if out:
         return out
+    # the table as a module-level constant the method reads (`_FORMATS.get(fmt, "str")`)
+    used = {n.id for n in own_nodes(rs.node) if isinstance(n, ast.Name)}
+    for st in rs.module.tree.body:
+        tg = st.targets[0] if isinstance(st, ast.Assign) else getattr(st, "target", None)
+        if isinstance(st, (ast.Assign, ast.AnnAssign)) and isinstance(tg, ast.Name) and tg.id in used and isinstance(getattr(st, "value", None), ast.Dict) and any(
+                const_str(k) in ("date-time", "uuid", "date") for k in st.value.keys if k is not None):
+            for k, v in zip(st.value.keys, st.value.values):
+                if const_str(k) is not None and const_str(v) is not None:
+                    out.append((const_str(k) or "", const_str(v) or "", v))
+    if out:
+        return out
     for n in own_nodes(rs.node):
         if isinstance(n, ast.Match):
             for case in n.cases:
